@@ -92,9 +92,23 @@ def runCase (j : Json) : Option String := do
   let same := eng.1 == res && eng.2 == more
   return s!"valid={b01 valid} shadow={b01 shadow} eng={idsStr eng.1} engmore={b01 eng.2} engvalid={b01 engvalid} same={b01 same}"
 
+/-- one line of the accept-table stage (`c02 accept`): the ids the REAL search returned for a hand-built
+    `TagCondition` with accept mask `accept` against four streams in the states `[id, undecided, matching]`;
+    `exp` = the ids `tagAcceptSpec` admits, `tab` = the ids the modelled switch `tagAccept` admits -/
+def accCase (j : Json) : Option String := do
+  let err := (match j.getObjVal? "err" with | .ok v => (match v.getStr? with | .ok s => s | .error _ => "") | .error _ => "")
+  if err ≠ "" then return s!"acc err={err}"
+  let accept ← getNat j "accept"
+  let states ← (← arr? j "states").mapM natList?
+  let res ← (match j.getObjVal? "res" with | .ok v => (if v.isNull then some [] else natList? v) | .error _ => some [])
+  let sts ← states.mapM (fun s => match s with | [id, u, m] => some (id, u != 0, m != 0) | _ => none)
+  let exp := (sts.filter (fun s => tagAcceptSpec accept s.2.1 s.2.2)).map (·.1)
+  let tab := (sts.filter (fun s => tagAccept accept s.2.1 s.2.2)).map (·.1)
+  return s!"acc exp={idsStr exp} tab={idsStr tab} same={b01 (exp == res && tab == res)}"
+
 def step (_ : Unit) (line : String) : Unit × String :=
   match Json.parse line with
-  | .ok j => ((), (runCase j).getD "bad-case")
+  | .ok j => ((), if getBool j "acc" then (accCase j).getD "bad-case" else (runCase j).getD "bad-case")
   | .error _ => ((), "bad-case")
 
 def main : IO Unit := runLines () step
